@@ -122,20 +122,33 @@ def check_monotonic(circuit, measures, acc: Acc, case: Dict[str, Any], require_o
     ops = circuit.operations
     if len(ops) > 400:
         return
+    # the precondition ("free of channel overlaps") is decided on the memo-free evaluation of the relation equations; the conclusion on
+    # the times a caller reads (through the process-wide memo).  Seeded change C07-r11: colliding memo keys gave two copies one start time.
     times = snap.shadow_times(ops)
     if require_overlap_free and not overlap_free(ops, times):
         acc.count("monotonic_skipped_overlap")
         return
     acc.count("monotonic_circuits")
-    start = {id(o): t[0] for o, t in zip(ops, times)}
-    per_q: Dict[int, List[Tuple[int, float]]] = {}
-    for op in measures:
-        per_q.setdefault(op.qubit_index, []).append((op.acquisition_index, start[id(op)]))
-    for q, lst in per_q.items():
-        lst.sort()
-        if any(lst[k + 1][1] < lst[k][1] - TOL for k in range(len(lst) - 1)):
-            acc.finding("index/not-monotonic-in-time", "per-qubit acquisition indices do not increase with measurement start time", case,
-                        {"qubit": q, "index_start": lst[:12]})
+    raw = snap.raw_times(ops)
+    for label, tt in (("", times), ("/as-read", raw)):
+        span = {id(o): t for o, t in zip(ops, tt)}
+        per_q: Dict[int, List[Tuple[int, float, float]]] = {}
+        for op in measures:
+            per_q.setdefault(op.qubit_index, []).append((op.acquisition_index, span[id(op)][0], span[id(op)][1]))
+        found = False
+        for q, lst in per_q.items():
+            lst.sort()
+            backwards = any(lst[k + 1][1] < lst[k][1] - TOL for k in range(len(lst) - 1))
+            # in an overlap-free circuit two measurements of one qubit that take time cannot share their time window either
+            stacked = require_overlap_free and any(lst[k][2] - lst[k][1] > TOL and lst[k + 1][2] - lst[k + 1][1] > TOL and lst[k + 1][1] < lst[k][2] - TOL
+                                                   for k in range(len(lst) - 1))
+            if backwards or stacked:
+                found = True
+                acc.finding("index/not-monotonic-in-time" + label, "per-qubit acquisition indices do not increase with measurement start time"
+                            + (" (times as read through the memo; the memo-free evaluation is in order)" if label else ""), case,
+                            {"qubit": q, "index_start": [x[:2] for x in lst[:12]]})
+        if found:
+            break
 
 
 def check_program(prog: Dict[str, Any], acc: Acc, flags=None):
@@ -150,6 +163,17 @@ def check_program(prog: Dict[str, Any], acc: Acc, flags=None):
         st = bp.stats(prog["circuit"])
         if st["explicit"] == 0 and st["blocks"] == 0:
             check_monotonic(modified, measures, acc, case, require_overlap_free=True)
+            # the unrolled circuit nested (copied) into an empty circuit: same enumeration, same order in time (seeded change C07-r11: group
+            # links created back to back compared equal, so copies of the unrolled heads shared one memoized start time)
+            from qce_circuit.language.declarative_circuit import DeclarativeCircuit
+            outer = DeclarativeCircuit()
+            outer.add(modified)
+            sub = Acc()
+            measures_n = check_indices(outer, sub, case)
+            check_monotonic(outer, measures_n, sub, case, require_overlap_free=True)
+            acc.merge_counts({"nested_unrolled_" + k: v for k, v in sub.counters.items()})
+            for f in sub.findings:
+                acc.finding(f["sig"] + "/unrolled-then-nested", f["what"] + " (unrolled circuit nested into an empty circuit)", f["case"], f["detail"])
         elif st["explicit"] == 0 and all(float(m.duration) > TOL for m in measures):
             # nested, implicitly sequenced: "free of channel overlaps" is only meaningful when measurements have a length (two
             # zero-length measurements on one channel never overlap, whatever their order)
